@@ -144,9 +144,9 @@ TABLE = {
     "C17": {
         "text": "Only the structural clauses: rows() and render() take the same decision from the same _valid_size inputs; the row assembly order (reset between image and "
                 "right padding), backward colour recovery up to the last 'm', fast path only without horizontal trim; the canvas uses its recorded image size and the same "
-                "centre split as _format_render.",
-        "note": _NOTE + " The main clause - trimmed canvas == crop of the full canvas, including _ti_calc_trim's case arithmetic - is byte-level runtime data and is NOT decided.",
-        "technique": "agreement of rows() and render() as traced expressions per case (FIT/AUTO), padding split via the traced arguments of _ti_calc_trim specialised per alignment, symbolic output shape of _format_render, row-assembly order by content, who-may-read query on the live image",
+                "centre split as _format_render; _ti_calc_trim's results equal the interval-intersection specification on every feasible path (proved per path by linear arithmetic).",
+        "note": _NOTE + " The byte content of the trimmed lines (trimmed canvas == crop of the full canvas, cell for cell) is runtime data and is NOT decided; the arithmetic of the region (_ti_calc_trim) is.",
+        "technique": "agreement of rows() and render() as traced expressions per case (FIT/AUTO), padding split via the traced arguments of _ti_calc_trim specialised per alignment, symbolic output shape of _format_render, row-assembly order by content, who-may-read query on the live image; path enumeration of _ti_calc_trim with Fourier-Motzkin infeasibility / entailment per specification case (tiv/linarith.py)",
     },
     "C18": {
         "text": "Synchronized-update bracket (BEGIN immediately before a try whose finally writes END and flushes, all output inside), delete-before-draw through the buffered "
